@@ -39,9 +39,14 @@ let b01 s = s = "1"
 
 let parse_cmd (s : string) : cmd =
   match String.split_on_char ':' s with
-  | ["sd"; p; f] -> CSetData (relpath p, b01 f)
-  | ["io"; p; bs] -> CInsertOrdered (relpat p, List.map bspec (split ',' bs))
-  | ["ro"; p; b] | ["xmv"; p; b] -> CReorder (relpat p, bspec b)
+  | ["sd"; ps; f] ->
+      (* several paths = several fields of one SETDATA; a trailing '/' asks for a generated name;
+         flags: bit 0 = ADDTOINDEX, bit 1 = QUIET (no effect on indices) *)
+      let item q = let n = String.length q in
+        if n > 0 && q.[n-1] = '/' then (relpath (String.sub q 0 (n-1)), true) else (relpath q, false) in
+      CSetData (List.map item (split ',' ps), (int_of_string f) land 1 = 1)
+  | ["io"; ps; bs] -> CInsertOrdered (List.map relpat (split ',' ps), List.map bspec (split ',' bs))
+  | ["ro"; ps; bs] | ["xmv"; ps; bs] -> CReorder (List.combine (List.map relpat (split ',' ps)) (List.map bspec (split ',' bs)))
   | ["rm"; p] | ["xrm"; p] -> CRemove (relpat p)
   | ["su"; p] | ["sq"; p] -> CSubscribe (abspat p)
   | ["un"; p] -> CUnsubscribe (abspat p)
@@ -87,6 +92,23 @@ let show_step (st : state) : string =
   let nodes = List.sort compare nodes in
   Printf.sprintf "L %s T %s" logs (String.concat " " (List.map snd nodes))
 
+(* (client-independent) node paths whose replicas a quiet removal has made stale: the parent of a victim, and
+   everything at or below a victim; the self-check leaves them alone for the rest of the case *)
+let taint_exact : (path, unit) Hashtbl.t = Hashtbl.create 8
+let taint_prefix : path list ref = ref []
+let tainted (p : path) = Hashtbl.mem taint_exact p || List.exists (fun v -> is_prefix v p) !taint_prefix
+
+(* PR_COMMAND_REMOVEDATA with PR_NAME_REMOVE_QUIETLY, one key: not a command of the Coq [run] (it gives up the replay
+   property by design, see quiet_frame); the driver applies the model's remove_child_quiet to the victims the same
+   single-pattern traversal finds, last found first *)
+let quiet_remove (st : state) (s : int) (pat : pattern) : state =
+  let sn = nat_of_int s in
+  if s < int_of_nat st.st_n && has_node st.st_tree [NS sn] then begin
+    let victims = List.filter (fun v -> List.length v >= 2) (expand st.st_tree [NS sn] pat) in
+    List.iter (fun v -> Hashtbl.replace taint_exact (parent_of v) (); taint_prefix := v :: !taint_prefix) victims;
+    with_out (List.fold_left remove_child_quiet st (List.rev victims)) []
+  end else with_out st []
+
 (* the model's own invariant, evaluated on the model state (a failure here is a model bug) *)
 let self_check (st : state) : string option =
   let n = int_of_nat st.st_n in
@@ -94,7 +116,7 @@ let self_check (st : state) : string option =
   let bad = ref None in
   for s = 0 to n - 1 do
     let sn = nat_of_int s in
-    List.iter (fun p ->
+    List.iter (fun p -> if not (tainted p) then
       let m = st.st_mirror sn p in
       if replay (st.st_hist sn p) [] <> m then bad := Some ("hist/mirror " ^ string_of_path p);
       if subscribed st sn p then (if m <> index_at st.st_tree p then bad := Some (Printf.sprintf "mirror of c%d for %s" s (string_of_path p)))
@@ -120,6 +142,7 @@ let () =
       let hd = List.hd (String.split_on_char ',' head) in
       let n = int_of_string (String.concat "" (List.filter (fun s -> s <> "") (String.split_on_char 'n' hd))) in
       let cfg = cfg_fixed in
+      Hashtbl.reset taint_exact; taint_prefix := [];
       let st = ref (init_state (nat_of_int n)) in
       let ops = List.filter (fun s -> s <> "") (String.split_on_char ';' body) in
       List.iteri (fun i op ->
@@ -127,8 +150,12 @@ let () =
         | None -> failwith ("bad op " ^ op)
         | Some g ->
           let sid = int_of_string (String.sub op 0 g) in
-          let cmds = List.map parse_cmd (String.split_on_char '&' (String.sub op (g+1) (String.length op - g - 1))) in
-          st := step cfg !st (nat_of_int sid, cmds);
+          let body = String.sub op (g+1) (String.length op - g - 1) in
+          (if String.length body > 3 && String.sub body 0 3 = "rq:" then
+             st := quiet_remove !st sid (relpat (String.sub body 3 (String.length body - 3)))
+           else
+             let cmds = List.map parse_cmd (String.split_on_char '&' body) in
+             st := step cfg !st (nat_of_int sid, cmds));
           Printf.printf "%d %d %s\n" k i (show_step !st);
           (match self_check !st with
            | Some why -> Printf.printf "%d ORACLE FAIL model invariant broken at step %d: %s\n" k i why
